@@ -18,6 +18,11 @@ TRAITS = [
                                {"name": "n0", "recv": "ref", "args": [], "ret": "u64"}]},
     {"name": "Tc", "methods": [{"name": "k", "recv": "ref", "args": ["ptr", "u64", "u64", "i32"], "ret": "void"},
                                {"name": "f2", "recv": "mut", "args": ["u64"], "ret": "i32"}]},
+    # Clone-like entry that returns a new container, and a callback of a struct element
+    {"name": "Td", "methods": [{"name": "dup", "recv": "ref", "args": [], "ret": "cont"},
+                               {"name": "cb", "recv": "ref", "args": ["cbPt", "u64"], "ret": "void"}]},
+    # callback of a primitive element
+    {"name": "Te", "methods": [{"name": "cbn", "recv": "mut", "args": ["cbu64"], "ret": "u64"}]},
 ]
 
 
@@ -56,14 +61,30 @@ def enumerate_models(c, tier):
         m["objects"] = sorted(m["objects"], key=lambda o: json.dumps(o, sort_keys=True))
         m["traits"] = TRAITS
         m["config"] = {k: v for k, v in m["config"].items() if v}
-    n = 40 if tier == "quick" else 600
+    n = 30 if tier == "quick" else 600
     rnd = random.Random(lib.seed())
     pick = rnd.sample(models, min(n, len(models)))
     # always include the richest models: several contexts, clashes, both groups, foreign declarations
     rich = [m for m in models if len(m["groups"]) == 2 and len(m["objects"]) == 3 and m["foreign"] and m["ctxgeneric"]
-            and len({o["ctx"] for o in m["objects"]}) == 2][:6]
+            and len({o["ctx"] for o in m["objects"]}) == 2][:4]
+    # ... and a greedy cover of the model features: every object, group, configuration, every (object|group, configuration)
+    # pair, every pair of objects of one trait (two instantiations of one object type in one header)
+    def feats(m):
+        cfg = json.dumps(m["config"], sort_keys=True)
+        objs = [json.dumps({k: o[k] for k in ("trait", "cont", "ctx")}, sort_keys=True) for o in m["objects"]]
+        f = set(objs) | {g["name"] for g in m["groups"]} | {cfg, "foreign=%s" % m["foreign"], "ctxgen=%s" % m["ctxgeneric"]}
+        f |= {(x, cfg) for x in objs} | {(g["name"], cfg) for g in m["groups"]}
+        f |= {(a, b) for a in objs for b in objs if a < b and json.loads(a)["trait"] == json.loads(b)["trait"]}
+        f |= {(g1["name"], g2["name"]) for g1 in m["groups"] for g2 in m["groups"] if g1["name"] < g2["name"]}
+        return f
+    covered, cover = set(), []
+    for m in sorted(models, key=lambda m: -(len(m["objects"]) + 2 * len(m["groups"]))):
+        f = feats(m)
+        if not f <= covered:
+            covered |= f
+            cover.append(m)
     seen, sel = set(), []
-    for m in rich + pick:
+    for m in rich + cover + pick:
         k = json.dumps(m, sort_keys=True)
         if k not in seen:
             seen.add(k)
@@ -148,8 +169,13 @@ def run_c17(c, tier, langs=("c", "cpp")):
                         c.violation("[%s] vtable entry %s::%s of %s %s (%s, %s) has no callable wrapper: expected `%s`%s" % (
                             lang, e["tr"], e["m"], e["owner_kind"], e["owner"], e["cont"], e["ctx"], e["wrapper"],
                             " which exists with parameters %s" % e.get("found_signature") if e["present"] else ""), {"model": model, "entry": e, "dir": md})
-            pc = subprocess.run(cc + ["-O0", "-w", "-o", os.path.join(md, "driver"), os.path.join(md, dname)], capture_output=True, text=True)
+            pc = subprocess.run(cc + ["-O0", "-w", "-ftrivial-auto-var-init=pattern", "-o", os.path.join(md, "driver"), os.path.join(md, dname)], capture_output=True, text=True)
             if pc.returncode != 0:
+                # a header that does not compile on its own is C18's subject, not a forwarding error
+                ph = subprocess.run(cc + ["-fsyntax-only", "-x", "c" if lang == "c" else "c++", os.path.join(md, hname)], capture_output=True, text=True)
+                if ph.returncode != 0:
+                    c.cov.setdefault("other_property_divergences", []).append({"property": "C18", "what": "processed %s header does not compile on its own" % lang, "model": idx})
+                    continue
                 c.violation("[%s] a caller cannot compile calls to the generated wrappers: %s" % (lang, pc.stderr[-600:]), {"model": model, "dir": md})
                 continue
             pr = subprocess.run([os.path.join(md, "driver")], capture_output=True, text=True, timeout=60)
